@@ -37,3 +37,16 @@ func (c linearRGB) toNRGBA(space string, alpha float32) color.NRGBA {
 	}
 	return displayp3.Color{RGB: lr}.ToNRGBA(alpha)
 }
+
+func (c linearRGB) toRGBA(space string, alpha float32) color.RGBA {
+	lr := linear.RGB{R: c.R, G: c.G, B: c.B}
+	switch space {
+	case "srgb":
+		return srgb.Color{RGB: lr}.ToRGBA(alpha)
+	case "adobergb":
+		return adobergb.Color{RGB: lr}.ToRGBA(alpha)
+	case "prophotorgb":
+		return prophotorgb.Color{RGB: lr}.ToRGBA(alpha)
+	}
+	return displayp3.Color{RGB: lr}.ToRGBA(alpha)
+}
